@@ -886,9 +886,29 @@ func genValueRecord(t *rapid.T) *gtab.GposValueRecord {
 	return v
 }
 
+// genGsubLookup draws a GSUB lookup.  A third of the lookups get one or two
+// further subtables of the same kind, drawn independently, so that coverage
+// tables overlap and the first-matching-subtable rule decides.
 func genGsubLookup(t *rapid.T, n int, subsetOnly bool) *gtab.LookupTable {
+	lt := genGsubLookup1(t, n, subsetOnly, 0)
+	if rapid.IntRange(0, 2).Draw(t, "moreSubtables") == 0 {
+		kind := map[bool]int{true: 1, false: 4}[func() bool { _, ok := lt.Subtables[0].(*gtab.Gsub1_1); return ok }()]
+		switch lt.Subtables[0].(type) {
+		case *gtab.Gsub1_1, *gtab.Gsub4_1:
+			for i := rapid.IntRange(1, 2).Draw(t, "nMoreSubtables"); i > 0; i-- {
+				lt.Subtables = append(lt.Subtables, genGsubLookup1(t, n, subsetOnly, kind).Subtables[0])
+			}
+		}
+	}
+	return lt
+}
+
+func genGsubLookup1(t *rapid.T, n int, subsetOnly bool, force int) *gtab.LookupTable {
 	kinds := []int{1, 2, 4, 12, 3}
-	if subsetOnly {
+	if force != 0 {
+		kinds = []int{force}
+	}
+	if subsetOnly && force == 0 {
 		kinds = []int{1, 4}
 	}
 	switch rapid.SampledFrom(kinds).Draw(t, "gsubType") {
